@@ -444,7 +444,10 @@ func composeCase(rel bool, t1, t2 int64, ns osm.WayNodes, ms osm.Members, us osm
 
 func annotated(n osm.WayNode) bool { return n.Version != 0 || n.Lon != 0 || n.Lat != 0 }
 
-func lsatHyp(tv time.Time, ns osm.WayNodes, us osm.Updates) bool {
+// lsatHyp: "fully annotated" read at time t (Spec.annotated_at): the stored way is fully annotated,
+// every due update names an existing node, and the way with the due updates applied is still
+// fully annotated (applied = the nodes of a copy after a successful ApplyUpdatesUpTo)
+func lsatHyp(tv time.Time, ns osm.WayNodes, us osm.Updates, applied osm.WayNodes, applyOK bool) bool {
 	for _, n := range ns {
 		if !annotated(n) {
 			return false
@@ -454,7 +457,15 @@ func lsatHyp(tv time.Time, ns osm.WayNodes, us osm.Updates) bool {
 		if u.Timestamp.After(tv) {
 			continue
 		}
-		if u.Index < 0 || u.Index >= len(ns) || !(u.Version != 0 || u.Lon != 0 || u.Lat != 0) {
+		if u.Index < 0 || u.Index >= len(ns) {
+			return false
+		}
+	}
+	if !applyOK {
+		return false
+	}
+	for _, n := range applied {
+		if !annotated(n) {
 			return false
 		}
 	}
@@ -493,7 +504,7 @@ func lsatCase(t int64, ns osm.WayNodes, us osm.Updates, mut func(*orb.LineString
 	encPoints(c, at)
 	c.Int(int64(o.Status))
 	encPoints(c, ls)
-	hyp := lsatHyp(tv, ns, us)
+	hyp := lsatHyp(tv, ns, us, cp.Nodes, o.Status == 0)
 	if mut == nil && hyp {
 		same := !panicked && o.Status == 0 && len(at) == len(ls)
 		for i := 0; same && i < len(at); i++ {
@@ -858,6 +869,21 @@ func main() {
 	}
 
 	{
+		// a due update that zeroes version and location: the applied copy is no longer fully
+		// annotated (LineString drops the node, LineStringAt keeps (0,0)); the agreement is not
+		// demanded there (C15_line_string_at_zero_update_hypothesis_needed), model = implementation is
+		ns := osm.WayNodes{{ID: 1, Version: 1, Lat: 1, Lon: 1}}
+		us := osm.Updates{{Index: 0, Version: 0, Timestamp: ts(base + 5)}}
+		c := lsatCase(base+10, ns, us, nil)
+		c.Class = "corpus"
+		w.Add(c)
+		// ... unless a later update of the same node annotates it again
+		us = append(us, osm.Update{Index: 0, Version: 3, Timestamp: ts(base + 6), Lat: 4, Lon: 4})
+		c = lsatCase(base+10, ns, us, nil)
+		c.Class = "corpus"
+		w.Add(c)
+	}
+	{
 		// inclusive boundary is about instants: t equal to the stamp in each representation
 		ns := osm.WayNodes{{ID: 1, Version: 1, Lat: 1, Lon: 1}, {ID: 2, Version: 1, Lat: 2, Lon: 2}}
 		ms := osm.Members{{Type: osm.TypeWay, Ref: 5, Role: "outer", Version: 1, Orientation: orb.CW}}
@@ -949,6 +975,8 @@ func main() {
 		w.Count("lsat-order:" + orderName[order])
 		if !c.Trivial {
 			w.Count("lsat:hypotheses-hold")
+		} else if len(us) > 0 {
+			w.Count("lsat:hypotheses-fail (agreement not demanded)")
 		}
 		w.Add(c)
 	}
